@@ -222,6 +222,73 @@ R.contract(
                     "return WriteReport(ops_attempted=attempted_total, ops_written=written"],
 )
 
+# ------------------------------------------------------------------ _reflect_rulebased / _reflect_llm
+R.opaque(RF + "_normalize", "norm_text", ["str", "bool"], "str")
+R.funtype("EmbedFn", params=["s"], returns="List[float]", raises="Exception")
+R.optobj("OptEmbedFn", "EmbedFn")
+R.contract(
+    RF + "_maybe_embed", "C19", verify=False,      # embedding numerics: ND in DESIGN.md (an arbitrary optional vector)
+    types={"summary": "str", "do_embed": "bool", "embedder": "OptEmbedFn"},
+    returns="Optional[List[float]]", raises="none", modifies=[],
+    ensures=[("no-vector-unless-asked", "implies(not do_embed or summary == '', is_none(result))")],
+)
+# _owner_and_ts: `ts` is annotated Any (ctx.now_iso / ctx.now / ctx.now_ms / a literal, whichever is truthy first): callers
+# see it as an uninterpreted value; the owner component is verified by the second (non-callee) contract.
+R.untype("TsAny")
+_OWNER = ("owner-is-agent-id-or-unknown", "result[0] == ite(ctx.agent_id != '', ctx.agent_id, 'unknown')")
+R.contract(RF + "_owner_and_ts", "C19", verify=False, types={"ctx": "ReflCtx"}, returns="Tuple[str, Un[TsAny]]",
+           raises="none", modifies=[], ensures=[_OWNER])
+R.contract(RF + "_owner_and_ts", "C19", name="_owner_and_ts[owner]", callee=False, types={"ctx": "ReflCtx"},
+           raises="none", ensures=[_OWNER])
+R.objtype("ReflPlan", {"reflection": "bool"})
+R.objtype("ReflectionBundle", {"ctx": "ReflCtx", "state_view": "None", "plan": "ReflPlan", "utter": "str", "snippets": "List[str]"})
+R.objtype("ReflectionResult", {}, cls=("clematis/engine/stages/t3/reflect.py", "ReflectionResult"))
+R.dictrec("ReflCfg", {"topk_snippets": "int", "summary_tokens": "int", "embed": "bool"})
+R.dictrec("ReflCfgEmpty", {})
+
+ENTRY_CLAUSES = [
+    ("at-most-one-entry", "len(result.memory_entries) <= 1"),
+    ("no-entry-when-ops-cap-nonpositive", "implies(ops_cap <= 0, len(result.memory_entries) == 0)"),
+    ("one-entry-when-budget-allows", "implies(ops_cap > 0, len(result.memory_entries) == 1)"),
+    ("entry-text-is-the-clamped-summary",
+     "implies(ops_cap > 0, result.memory_entries[0]['text'] == result.summary and "
+     " result.memory_entries[0]['kind'] == 'summary' and result.memory_entries[0]['owner'] == ite(bundle.ctx.agent_id != '', bundle.ctx.agent_id, 'unknown'))"),
+    ("metrics-report-the-cap", "result.metrics['ops_cap'] == ops_cap"),
+]
+for _cfg, _nm, _lim in [("ReflCfg", "_reflect_rulebased", "reflection_cfg['summary_tokens']"),
+                        ("ReflCfgEmpty", "_reflect_rulebased[default config]", "128")]:
+    R.contract(
+        RF + "_reflect_rulebased", "C19", name=_nm, callee=(_cfg == "ReflCfg"),
+        types={"bundle": "ReflectionBundle", "reflection_cfg": _cfg, "ops_cap": "int", "embedder": "OptEmbedFn"},
+        ensures=[("summary-within-token-limit", "ntokens(result.summary) <= max(%s, 0)" % _lim)] + ENTRY_CLAUSES,
+        raises="none",
+        modifies=[],
+    )
+
+# llm backend: fixture adapter assumed (file I/O); cfg_root carries t3.llm.fixtures
+R.objtype("LLMResult", {"text": "str", "tokens": "int", "truncated": "bool"})
+R.objtype("FixtureLLMAdapter", {}, cls=("clematis/adapters/llm.py", "FixtureLLMAdapter"))
+R.contract("clematis/adapters/llm.py:FixtureLLMAdapter.__init__", "C19", verify=False,
+           types={"self": "FixtureLLMAdapter", "path": "str"}, raises="LLMAdapterError", modifies=[])
+R.contract("clematis/adapters/llm.py:FixtureLLMAdapter.generate", "C19", verify=False,
+           types={"self": "FixtureLLMAdapter", "prompt": "str", "max_tokens": "int", "temperature": "float"},
+           returns="LLMResult", raises="LLMAdapterError", modifies=[])
+R.dictrec("FixturesCfg", {"enabled": "bool", "path": "str"})
+R.dictrec("LLMCfg", {"fixtures": "FixturesCfg"})
+R.dictrec("T3Cfg", {"llm": "LLMCfg"})
+R.dictrec("LLMCfgRoot", {"t3": "T3Cfg"})
+R.contract(
+    RF + "_reflect_llm", "C19",
+    types={"bundle": "ReflectionBundle", "cfg_root": "LLMCfgRoot", "reflection_cfg": "ReflCfg", "ops_cap": "int",
+           "embedder": "OptEmbedFn"},
+    ensures=[("summary-within-token-limit", "ntokens(result.summary) <= max(reflection_cfg['summary_tokens'], 0)"),
+             ("only-with-enabled-fixtures", "cfg_root['t3']['llm']['fixtures']['enabled']"),
+             ("summary-not-empty-implies-positive-limit", "implies(result.summary != '', reflection_cfg['summary_tokens'] > 0)")]
+    + ENTRY_CLAUSES,
+    raises=None,        # failures (missing fixture, bad config, encoding) propagate to the fail-soft wrapper (f_runturn.py)
+    modifies=[],
+)
+
 for _nm, _pat in [("index-select", {"call": "_choose_index"}), ("index-add", {"call": "add", "recv": "index"}),
                   ("episode-id", {"call": "_episode_id"}), ("normalize-entry", {"call": "_normalize_entry"})]:
     R.fclause("C19", "writer/no-escape:%s" % _nm, "noescape", WR + "write_reflection_entries", sites=_pat)
